@@ -5,8 +5,8 @@ C29 — hand model of the structural operations of `abtem.array.ArrayObject`
 
 An array object is: the ensemble axes metadata (ordinal axes carry one value per item, every other
 axis kind is an opaque tag that is copied around), the number of base dimensions of the class, and the
-array (shape + row-major data).  NumPy basic indexing (ints, slices with step, None) and indexing with
-one index list are modelled on the row-major data; everything the code rejects is an `Except` error of
+array (shape + row-major data).  Indexing (ints, slices with step, None, index lists — every item selects along its own dimension,
+`_select_items`) is modelled on the row-major data; everything the code rejects is an `Except` error of
 the same kind.  Core Lean only.
 -/
 namespace AbtemVerif.ArrObj
@@ -29,6 +29,7 @@ inductive Axis where
   | other (tag : Int)                         -- any other axis metadata (frozen phonons, plain AxisMetadata …)
   | unknown                                   -- `UnknownAxis()`
   | linear (tag : Int) (offset sampling : Rat) -- LinearAxis and subclasses (ScanAxis …): coordinate k = offset + k·sampling
+  | ordinalQ (tag : Int) (vals : List Rat)    -- `LinearAxis.to_ordinal_axis(n)[item]`: an OrdinalAxis of selected coordinates
   deriving DecidableEq, Repr, Inhabited
 
 structure Obj where
@@ -44,6 +45,7 @@ def axesFit : List Axis → List Nat → Bool
   | [], _ => true
   | _, [] => true
   | .ordinal _ vs :: as, n :: ns => (vs.length == n) && axesFit as ns
+  | .ordinalQ _ vs :: as, n :: ns => (vs.length == n) && axesFit as ns
   | _ :: as, _ :: ns => axesFit as ns
 
 /-- what the constructor accepts -/
@@ -60,6 +62,16 @@ def pyRange (start stop step : Int) : Nat → List Int
   | fuel + 1 =>
       if (step > 0 && start < stop) || (step < 0 && start > stop) then start :: pyRange (start + step) stop step fuel else []
 
+/-- first component of `slice(a, b, s).indices(n)` -/
+def sliceStart (a s : Option Int) (n : Nat) : Int :=
+  let N : Int := n
+  let neg := s.getD 1 < 0
+  match a with
+  | none => if neg then N - 1 else 0
+  | some x =>
+      let x := if x < 0 then x + N else x
+      if x < 0 then (if neg then -1 else 0) else if x ≥ N then (if neg then N - 1 else N) else x
+
 /-- `slice(a, b, s).indices(n)` then `range(...)` -/
 def sliceIndices (a b s : Option Int) (n : Nat) : Except Err (List Nat) :=
   let step := s.getD 1
@@ -67,11 +79,7 @@ def sliceIndices (a b s : Option Int) (n : Nat) : Except Err (List Nat) :=
   else
     let N : Int := n
     let neg := step < 0
-    let start : Int := match a with
-      | none => if neg then N - 1 else 0
-      | some x =>
-          let x := if x < 0 then x + N else x
-          if x < 0 then (if neg then -1 else 0) else if x ≥ N then (if neg then N - 1 else N) else x
+    let start : Int := sliceStart a s n
     let stop : Int := match b with
       | none => if neg then -1 else N
       | some x =>
@@ -163,12 +171,16 @@ def expandNones : List Item → List Axis → List Axis
   | _ :: its, a :: ens => a :: expandNones its ens
   | _ :: its, [] => expandNones its []
 
-/-- `expanded_axes_metadata[item]`: OrdinalAxis slices its values; a LinearAxis under a forward slice (start ≥ 0, step ≥ 1, as written)
-moves its offset and scales its sampling; everything else raises TypeError ⇒ `.copy()` -/
+/-- `expanded_axes_metadata[item]` in `_get_ensemble_axes_metadata_items`: an OrdinalAxis slices its values; a LinearAxis under
+a slice with positive step moves its offset to the first selected coordinate (`start` = `item.indices(n)[0]`) and scales its
+sampling; under an index list or a backward slice it becomes the ordinal axis of the selected coordinates
+(`to_ordinal_axis(n)[item]`); everything else raises TypeError ⇒ `.copy()` -/
 def axisGet (a : Axis) (sel : List Nat) (fwd : Option (Int × Int)) : Axis :=
   match a, fwd with
   | .ordinal l vs, _ => .ordinal l (sel.map fun i => vs.getD i 0)
-  | .linear t off samp, some (start, step) => .linear t (off + start * samp) (samp * step)   -- `LinearAxis.__getitem__`
+  | .ordinalQ l vs, _ => .ordinalQ l (sel.map fun i => vs.getD i 0)
+  | .linear t off samp, some (start, step) => .linear t (off + start * samp) (samp * step)
+  | .linear t off samp, none => .ordinalQ t (sel.map fun (i : Nat) => off + ((i : Int) : Rat) * samp)
   | a, _ => a
 
 /-- resolve the items against the dimensions they consume; `dims` are the ensemble dimension sizes -/
@@ -184,9 +196,8 @@ def resolve : List Item → List Nat → Except Err (List Sel)
       | _, .error e => .error e
   | .slice a b s :: its, n :: dims => match sliceIndices a b s n, resolve its dims with
       | .ok idx, .ok r =>
-          let start := a.getD 0
           let step := s.getD 1
-          .ok (.keep idx (if start < 0 || step < 1 then none else some (start, step)) :: r)
+          .ok (.keep idx (if step < 1 then none else some (sliceStart a s n, step)) :: r)
       | .error e, _ => .error e
       | _, .error e => .error e
   | .list l :: its, n :: dims => match listIndices l n, resolve its dims with
@@ -232,10 +243,6 @@ def getItems (o : Obj) (items : List Item) (keepdims : Bool) : Except Err Obj :=
   match validateItems items (o.shape.take ensDims) keepdims with
   | .error e => .error e
   | .ok items =>
-    if (items.filter fun it => match it with | .list _ => true | _ => false).length > 1 ||
-       ((items.any fun it => match it with | .list _ => true | _ => false) &&
-        (items.any fun it => match it with | .int _ => true | _ => false)) then .error .unsupported
-    else
       match resolve items (o.shape.take ensDims) with
       | .error e => .error e
       | .ok sels =>
@@ -324,6 +331,7 @@ def keepAxes : List Axis → Nat → List Nat → List Axis
       (if ax.contains i then
         (match a with
          | .ordinal l vs => if vs.length != 1 then .other l else a
+         | .ordinalQ l vs => if vs.length != 1 then .other l else a
          | a => a)
        else a) :: keepAxes as (i + 1) ax
 
@@ -356,7 +364,7 @@ def stack (os : List Obj) (newAxis : Axis) (axis : Int) : Except Err Obj :=
   | o :: _ =>
     let ensDims := o.shape.length - o.baseDims
     if axis > ensDims || axis < 0 then .error .assertion_error
-    else if (match newAxis with | .other _ => true | .linear _ _ _ => true | _ => false) then .error .value_error   -- validate_axis_metadata: only OrdinalAxis / None
+    else if (match newAxis with | .other _ => true | .linear _ _ _ => true | .ordinalQ _ _ => false | _ => false) then .error .value_error   -- validate_axis_metadata: only OrdinalAxis / None
     else if os.any fun p => p.shape != o.shape then .error .value_error        -- numpy: all input arrays must have the same shape
     else
       let k := axis.toNat
@@ -369,6 +377,7 @@ def stack (os : List Obj) (newAxis : Axis) (axis : Int) : Except Err Obj :=
 def axisConcat (a b : Axis) : Except Err Axis :=
   match a, b with
   | .ordinal l vs, .ordinal l2 ws => if l == l2 then .ok (.ordinal l (vs ++ ws)) else .error .runtime_error
+  | .ordinalQ l vs, .ordinalQ l2 ws => if l == l2 then .ok (.ordinalQ l (vs ++ ws)) else .error .runtime_error
   | a, b => if a == b then .ok a else .error .runtime_error
 
 /-- fold of `concatenate` over the axis metadata of the operands -/
